@@ -90,6 +90,24 @@ Proof.
   cbn [slice_loop]. rewrite index_at_panic by lia. reflexivity.
 Qed.
 
+Lemma slice_array_exec_eq {A} (content : list A) first second :
+  slice_array_exec content first second = slice_array content first second.
+Proof.
+  unfold slice_array_exec, slice_array.
+  set (len := Z.of_nat (length content)).
+  set (rf := slice_rel_first len first).
+  set (rs := slice_rel_second len second).
+  assert (Hrs : (rs <= len)%Z) by (apply slice_rel_second_le; lia).
+  destruct (Z.ltb_spec rf 0) as [Hneg|Hpos].
+  - destruct (Z.le_gt_cases rs rf) as [Hle|Hgt].
+    + replace (Z.to_nat (Z.min (rs - rf) (len + 1))) with 0%nat by lia.
+      replace (Z.to_nat (rs - rf)) with 0%nat by lia. reflexivity.
+    + destruct (Z.to_nat (Z.min (rs - rf) (len + 1))) as [|n1] eqn:E1; [lia|].
+      destruct (Z.to_nat (rs - rf)) as [|n2] eqn:E2; [lia|].
+      cbn [slice_loop]. rewrite index_at_panic by lia. reflexivity.
+  - replace (Z.min (rs - rf) (len + 1)) with (rs - rf)%Z by lia. reflexivity.
+Qed.
+
 Lemma slice_guardb_spec len f s : slice_guardb len f s = true <-> slice_guard len f s.
 Proof.
   unfold slice_guardb, slice_guard. rewrite orb_true_iff, !Z.leb_le. reflexivity.
